@@ -66,6 +66,18 @@ func (ex *Exec) intrinsic(caller *Frame, fn *ssa.Function, args []Value) (Value,
 			return x, true
 		}
 		return ts.Or(ts.Bin(OpShl, x, ts.Const(32, s)), ts.Bin(OpLShr, x, ts.Const(32, 32-s))), true
+	case "github.com/pierrec/lz4/v4/internal/lz4block.blockHash":
+		// Summary: an arbitrary function of the low 48 bits with values below htSize (the
+		// property-relevant contract of the real body, proved separately by H_hash_contract).
+		if x := args[0].(*Term); !x.IsConst() && !ex.job.NoSummary {
+			ex.path.Summaries++
+			return ts.ZExt(ts.Apply("uf_blockHash", 16, ts.Extract(x, 47, 0)), 32), true
+		}
+	case "github.com/pierrec/lz4/v4/internal/lz4block.blockHashHC":
+		if x := args[0].(*Term); !x.IsConst() && !ex.job.NoSummary {
+			ex.path.Summaries++
+			return ts.ZExt(ts.Apply("uf_blockHashHC", 16, x), 32), true
+		}
 	case "github.com/pierrec/lz4/v4/internal/lz4block.decodeBlock":
 		if fn.Blocks == nil {
 			return ex.asmDecodeBlock(args[0].(Slice), args[1].(Slice), args[2].(Slice)), true
@@ -196,13 +208,13 @@ func (ex *Exec) errorsIs(caller *Frame, err, target Iface) Value {
 			}
 		}
 		// Is method
-		if m := ex.w.prog.LookupMethod(err.typ, nil, "Is"); m != nil && m.Signature.Params().Len() == 1 {
+		if m := ex.lookupMethod(err.typ, nil, "Is"); m != nil && m.Signature.Params().Len() == 1 {
 			r := ex.callFunction(caller, m, []Value{err.val, target}, nil, nil).(*Term)
 			if ex.decide(r, false) {
 				return ts.tTrue
 			}
 		}
-		m := ex.w.prog.LookupMethod(err.typ, nil, "Unwrap")
+		m := ex.lookupMethod(err.typ, nil, "Unwrap")
 		if m == nil || m.Signature.Results().Len() != 1 {
 			return ts.tFalse
 		}
@@ -279,8 +291,20 @@ func (ex *Exec) trailingZeros(x *Term) Value {
 // ---------- harness primitives ----------
 
 func (ex *Exec) newInput(name string, w uint8, kind string) *Term {
+	if ex.fixed != nil {
+		// concrete mode: inputs come from a tape
+		if ex.fixedPos >= len(ex.fixed) {
+			ex.abort("tape", "tape exhausted in concrete mode")
+		}
+		e := ex.fixed[ex.fixedPos]
+		ex.fixedPos++
+		c := ex.ts.Const(w, e.V)
+		ex.inputs = append(ex.inputs, inputRec{Name: name, T: c, Kind: kind})
+		return c
+	}
 	v := ex.ts.Var(fmt.Sprintf("in%d_%s", len(ex.inputs), sanitize(name)), w)
 	ex.inputs = append(ex.inputs, inputRec{Name: name, T: v, Kind: kind})
+	ex.sv.declare(v)
 	return v
 }
 
@@ -360,6 +384,21 @@ func (ex *Exec) vfCall(caller *Frame, fn *ssa.Function, name string, args []Valu
 		n := ex.concInt(s.len)
 		off := ex.concInt(s.off)
 		ew := map[string]uint8{"vfHavocU8": 8, "vfHavocU16": 16, "vfHavocU32": 32, "vfHavocInt": 64}[name]
+		if ex.fixed != nil {
+			if ex.fixedPos >= len(ex.fixed) {
+				ex.abort("tape", "tape exhausted in concrete mode")
+			}
+			e := ex.fixed[ex.fixedPos]
+			ex.fixedPos++
+			ex.fillRange(s.obj, off, off+n*s.es, nil)
+			for _, kv := range e.Entries {
+				if int(kv[0]) < n {
+					ex.writeCell(s.obj, off+int(kv[0])*s.es, ts.Const(ew, kv[1]))
+				}
+			}
+			ex.inputs = append(ex.inputs, inputRec{Name: nm, Kind: "arrfixed", Entries: e.Entries})
+			return nil
+		}
 		arr := ts.NewArray(fmt.Sprintf("arr%d_%s", len(ex.inputs), sanitize(nm)), 32, ew)
 		ex.inputs = append(ex.inputs, inputRec{Name: nm, Arr: &arr, Kind: "arr"})
 		ex.fillRange(s.obj, off, off+n*s.es, &arr)
@@ -417,6 +456,11 @@ func (ex *Exec) vfCall(caller *Frame, fn *ssa.Function, name string, args []Valu
 		return ts.tTrue
 	case "vfAsmDecodeBlock":
 		return ex.asmDecodeBlock(args[0].(Slice), args[1].(Slice), args[2].(Slice))
+	case "vfGuardAlloc":
+		n := ex.concInt(args[0])
+		o := ex.newObject(types.Typ[types.Uint8], n, "vfGuardAlloc")
+		nt := ts.Const(64, uint64(n))
+		return Slice{obj: o, off: ts.Const(64, 0), len: nt, cap: nt, es: 1}
 	case "vfUnwind":
 		ex.unwind = int32(ex.concInt(args[0]))
 		return nil
